@@ -88,7 +88,8 @@ def prev_program(name):
 
 HISTORY_ALPHABET = ["gd", "block", "quad", "linop", "comp", "lmi", "qg", "abandon", "unbounded", "raises", "twice", "heur",
                     "mosek", "nulls"]
-OBSERVED = ["gd", "block", "quad", "lmi", "comp", "nullsum", "lmi@mosek", "block@mosek", "qg", "support"]
+OBSERVED = ["gd", "block", "quad", "lmi", "comp", "nullsum", "lmi@mosek", "block@mosek", "qg", "support", "gd+logdet2", "lmi+trace",
+            "block+logdet1@mosek"]
 
 
 def observed_program(name, verbose):
@@ -97,6 +98,9 @@ def observed_program(name, verbose):
     from mc import models, solving, recording as REC
     backend = "mosek" if name.endswith("@mosek") else "cvxpy"
     base = name.split("@")[0]
+    dr = None
+    if "+" in base:
+        base, dr = base.split("+")
     if base == "nullsum":
         from PEPit.point import null_point
         from PEPit.expression import null_expression
@@ -109,7 +113,7 @@ def observed_program(name, verbose):
     else:
         c = models.build(_spec(base))
     with REC.recording():
-        r = solving.solve(c.pep, backend=backend, verbose=verbose)
+        r = solving.solve(c.pep, backend=backend, verbose=verbose, dr=dr)
     dump = dict(program=name, value=None if r["value"] is None else float(r["value"]).hex(),
                 exc=None if r["exc"] is None else type(r["exc"]).__name__)
     w = c.pep.wrapper
@@ -163,8 +167,9 @@ def _exact_repr(x):
 
 # ---- execution in a controlled process history ------------------------------------------------------------------------
 
-def run_in_fork(history, prog, verbose):
-    """fork a child of this (pristine) process; the child runs history ; B and returns B's dump."""
+def run_in_fork(history, prog, verbose, pad=0):
+    """fork a child of this (pristine) process; the child runs history ; B and returns B's dump.
+    pad: number of dummy objects allocated (and kept alive) first - the allocator state is part of the process history."""
     rfd, wfd = os.pipe()
     pid = os.fork()
     if pid == 0:
@@ -174,6 +179,7 @@ def run_in_fork(history, prog, verbose):
             try:
                 import io, contextlib
                 with contextlib.redirect_stdout(io.StringIO()):
+                    _keep = [[object() for _ in range(7)] for _ in range(pad * 53)]
                     for h in history:
                         prev_program(h)
                     out = observed_program(prog, verbose)
@@ -210,9 +216,18 @@ def diff(ref, got):
     return [k for k in sorted(set(ref) | set(got)) if ref.get(k) != got.get(k)]
 
 
-def judge(history, prog, verbose, ref=None):
+def judge(history, prog, verbose, ref=None, pads=(0,)):
     ref = ref or reference_dump(prog)
-    got = run_in_fork(history, prog, verbose)
+    out = None
+    for pad in pads:
+        out = _judge_once(history, prog, verbose, ref, pad)
+        if out[0]:
+            return out
+    return out
+
+
+def _judge_once(history, prog, verbose, ref, pad):
+    got = run_in_fork(history, prog, verbose, pad)
     if "harness_exception" in got:
         return [("history-dependent:raises:%s" % prog, "B raised %s after history %s" % (got["harness_exception"], list(history)))], got
     d = diff(ref, got)
@@ -292,7 +307,9 @@ def run_shard(shard, tier):
 
 
 def replay(case):
-    probs, _ = judge(tuple(case["history"]), case["program"], case["verbose"])
+    # a dependence on the allocator state (e.g. iteration over a set of objects) does not reproduce at one fixed state:
+    # the replay enumerates 8 allocation offsets and reports the violation if any of them shows it
+    probs, _ = judge(tuple(case["history"]), case["program"], case["verbose"], pads=tuple(range(8)))
     return [dict(key=k, msg=m, case=case) for k, m in probs]
 
 
